@@ -9,6 +9,7 @@
      ec.xmulv2 <lvl> Px Pz A24x A24z kbits k                                             -> X Z
      ec.dblmul <lvl> P Q PQ A C k l                                                      -> X Z
      ec.dblmulb <lvl> P Q PQ A C k l f                                                   -> X Z
+     ec.biscalarb <lvl> P Q PQ A C k l f      (ec_biscalar_mul_bounded: zero scalar -> 2^f, then xDBLMUL_bounded) -> X Z
      ec.ladder3pt <lvl> P Q PQ A C m          (A24 normalised by ec_curve_normalize_A24)  -> X Z
      jac.seq <lvl> <nF> a P1..Pn (Jacobian, 3 field elements each)  ops: triples (1 i j = ADD, 2 i _ = DBL, 3 i _ = jac_neg),
                                                                    every result is a new register        -> X Y Z of the last
@@ -225,6 +226,13 @@ int main(void)
             scalar_from_hex(k, g_tok[g_ipos], NWORDS_ORDER); scalar_from_hex(l, g_tok[g_ipos + 1], NWORDS_ORDER); g_ipos += 2;
             if (op[9] == 'b') { long f = rd_int(); xDBLMUL_bounded(&R, &P, k, &Q, l, &PQ, &E, (int)f); }
             else xDBLMUL(&R, &P, k, &Q, l, &PQ, &E);
+            out_fp2(&R.x); out_fp2(&R.z);
+        } else if (!strcmp(op, "ec.biscalarb")) {
+            ec_basis_t B; ec_point_t R; ec_curve_t E; digit_t k[NWORDS_ORDER], l[NWORDS_ORDER];
+            rd_point(&B.P); rd_point(&B.Q); rd_point(&B.PmQ); rd_curve(&E); g_ipos = g_fpos;
+            scalar_from_hex(k, g_tok[g_ipos], NWORDS_ORDER); scalar_from_hex(l, g_tok[g_ipos + 1], NWORDS_ORDER); g_ipos += 2;
+            long f = rd_int();
+            ec_biscalar_mul_bounded(&R, &E, k, l, &B, (int)f);
             out_fp2(&R.x); out_fp2(&R.z);
         } else if (!strcmp(op, "ec.ladder3pt")) {
             ec_point_t P, Q, PQ, R; ec_curve_t E; digit_t m[NWORDS_ORDER];
